@@ -12,7 +12,7 @@ RULE = (
     "event-log digests among those."
 )
 PROBES = ["dtype!=file-dtype", "chunks>1", "reopen-without-close", "unrepresentable-values", "refused", "converted",
-          "W3-raised", "sub-range-read-back", "read_plan-read-back", "earlier-product-at-other-depth", "big-chunks", "layout:1d-strided", "layout:2d-C", "layout:2d-F"] + [f"depth:{d}" for d in (1, 2, 4, 8, 16, 32)] + [
+          "W3-raised", "sub-range-read-back", "read_plan-read-back", "earlier-product-at-other-depth", "big-chunks", "layout:1d-strided", "layout:2d-C", "layout:2d-F", "dotted-basename-with-sibling"] + [f"depth:{d}" for d in (1, 2, 4, 8, 16, 32)] + [
     f"format:{k}" for k in ("fil", "block", "tim", "dat", "spec", "fft")]
 COMPONENTS = {
     "real": ["Header.prep_outfile / FileWriter.cwrite / bits.pack", "FilterbankBlock.to_file", "TimeSeries.to_tim/to_dat/from_tim/from_dat",
